@@ -102,7 +102,7 @@ func reencodeStage(env *vh.Env, rep *vh.Report, rng *vh.Rng, specs []reSpec) int
 	var all [][]reStep
 	hangs := 0
 	for _, sp := range specs {
-		if hangs >= 3 { // every hang leaves a spinning goroutine behind: stop the stage, the reports are made
+		if hangs >= 1 { // every hang leaves a spinning goroutine behind: stop the stage, the reports are made
 			all = append(all, nil)
 			continue
 		}
@@ -186,7 +186,7 @@ func reencodeStage(env *vh.Env, rep *vh.Report, rng *vh.Rng, specs []reSpec) int
 			}
 			nAlias++
 			var backA, backA2, backB string
-			if hangs >= 3 {
+			if hangs >= 1 {
 				break
 			}
 			o := vh.GuardTimeout(implDeadline, func() {
